@@ -2,10 +2,11 @@
 from __future__ import annotations
 
 import ast
+from fractions import Fraction
 from typing import Dict, List, Optional, Tuple
 
 from .. import algebra as A
-from ..abseval import (Cond, Const, Ctx, Evaluator, Inst, Leaf, NONE, Raised, Scalar, State, S, SymObj, Undecided,
+from ..abseval import (Cond, Const, Ctx, Evaluator, Inst, Leaf, NONE, Raised, Scalar, State, S, SymObj, Tup, Undecided,
                        cond_leaves, leaves)
 from ..cfg import CFG
 from ..check import Variant
@@ -252,42 +253,94 @@ def run(prog: Program, rep, thorough: bool) -> None:
     # should_record: both checks and all history fields on every path
     sr = prog.func(C.M_TC, '_TrajectoryDataFilter.should_record')
     rep.saw(sr)
-    cfg = CFG(sr.node)
-    pdom = cfg.dominators(post=True)
-    me = sr.positional[0]
-    pos_p, vel_p, mach_p, time_p = sr.positional[1:5]
-    must = {f'{me}.check_zero_crossing': None, f'{me}.check_mach_crossing': None}
-    for n in cfg.nodes:
-        if n.ast is None:
+    # by evaluation of should_record on a symbolic sample: the two crossing checks are replaced by recorders that leave
+    # a mark in the state (so every outcome leaf shows whether and with what they were reached); on every non-raising
+    # outcome both marks are present with the sample's position / speed and Mach, and the four history fields hold the
+    # sample
+    def mark(tag):
+        def h(ev_, func, args, kwargs, st_, self_val):
+            a_ = list(args) + [kwargs[k] for k in func.positional[1 + len(args):] if k in kwargs]
+            ev_.hp(st_, self_val.oid)[f'$seen:{tag}'] = Tup(a_)
+            return NONE
+        return h
+    # should_record is evaluated where _integrate calls it, inside one symbolic loop iteration (state P = (x, y, z),
+    # V = (vx, vy, vz), t, speed of sound a of this step's atmosphere query), on a filter with unknown flags and latches
+    from .c01 import loop_iteration
+    from .flow import DENSITY_CALL
+    Fi = IntegrateFacts(prog)
+    runs = []
+
+    def symcall(ev_, fv, args, kwargs, st_):
+        if fv.path.endswith('.' + DENSITY_CALL):
+            return Tup([S('rho'), S('a')])
+        if fv.path.endswith('.should_record'):
+            sub = st_.copy()
+            flt_ = _mk_filter(ev_, sub, prog, seen_zero=S('sz'), current_flag=S('cf'))
+            cx = Ctx(tc, sr, None, 1)
+            sub.env = dict(ev_.bind(sr, list(args), dict(kwargs), sub, cx, skip_self=True))
+            sub.env[sr.positional[0]] = flt_
+            runs.append((flt_, ev_.exec_block(list(sr.node.body), sub, cx)))
+            return SymObj('data')
+        return None
+    evs = Evaluator(prog, hooks={'call:_TrajectoryDataFilter.check_zero_crossing': mark('zero'),
+                                 'call:_TrajectoryDataFilter.check_mach_crossing': mark('mach'),
+                                 'symcall': symcall,
+                                 'call:_calculate_by_curve_and_mach_list': lambda ev_, func, args, kwargs, st_, sv: S('Cd'),
+                                 **C.no_wrap_hooks()},
+                    opaque={'create_trajectory_row', 'spin_drift'})
+    try:
+        loop_iteration(prog, Fi, evs, Ctx(tc, Fi.func, None, 0))
+    except Undecided as exc:
+        raise AnalysisError(f'should_record at its call site: {exc}') from exc
+    if not runs:
+        raise AnalysisError('one iteration of the integration loop does not reach should_record in the abstract evaluation')
+    speed = (A.sym('vx') ** 2 + A.sym('vy') ** 2 + A.sym('vz') ** 2) ** Fraction(1, 2)
+    SAMPLE = {'pos': ('x', 'y', 'z'), 'vel': ('vx', 'vy', 'vz'), 'time': 't', 'mach': 'a'}
+
+    def same_vec(st_, v, ref, names) -> bool:
+        if not isinstance(v, Inst):
+            return False
+        h_ = st_.heap[v.oid]
+        return all(isinstance(h_.get(c_), Scalar) and h_[c_].rf.equals(A.sym(n_)) for c_, n_ in zip('xyz', names))
+    all_leaves = [(flt_, path_, leaf_) for flt_, tree_ in runs for path_, leaf_ in leaves(tree_)]
+    n_leaf = 0
+    p_reach, p_args, p_hist = set(), set(), set()
+    for flt_s, _path, leaf in all_leaves:
+        if leaf.kind == 'raise':
             continue
-        for c in ast.walk(n.ast) if n.kind == 'stmt' else []:
-            if isinstance(c, ast.Call) and norm(c.func) in must:
-                must[norm(c.func)] = (n, c)
-    for name, hit in must.items():
-        short = name.split('.')[-1]
-        if hit is None or hit[0].id not in pdom[cfg.entry.id]:
+        n_leaf += 1
+        h = leaf.state.heap[flt_s.oid]
+        z, m_ = h.get('$seen:zero'), h.get('$seen:mach')
+        if z is None:
+            p_reach.add('check_zero_crossing')
+        elif not (len(z.items) == 1 and same_vec(leaf.state, z.items[0], None, SAMPLE['pos'])):
+            p_args.add(f'check_zero_crossing is called with ({", ".join(evs.describe(x) for x in z.items)}), expected the position of '
+                       f'the sample')
+        if m_ is None:
+            p_reach.add('check_mach_crossing')
+        elif not (len(m_.items) == 2 and isinstance(m_.items[0], Scalar) and m_.items[0].rf.equals(speed)
+                  and isinstance(m_.items[1], Scalar) and m_.items[1].rf.equals(A.sym('a'))):
+            p_args.add(f'check_mach_crossing is called with ({", ".join(evs.describe(x) for x in m_.items)}), expected (|V| of the '
+                       f'sample, the speed of sound of this step)')
+        for fld, ok_ in (('previous_time', isinstance(h.get('previous_time'), Scalar) and h['previous_time'].rf.equals(A.sym('t'))),
+                         ('previous_mach', isinstance(h.get('previous_mach'), Scalar) and h['previous_mach'].rf.equals(A.sym('a'))),
+                         ('previous_position', same_vec(leaf.state, h.get('previous_position'), None, SAMPLE['pos'])),
+                         ('previous_velocity', same_vec(leaf.state, h.get('previous_velocity'), None, SAMPLE['vel']))):
+            if not ok_:
+                p_hist.add(fld)
+    if n_leaf == 0:
+        raise AnalysisError('should_record has no non-raising outcome in the abstract evaluation')
+    for short in ('check_zero_crossing', 'check_mach_crossing'):
+        if short in p_reach:
             rep.fail('C15.R2', tc.path, sr.node.lineno, sr.qualname, f'reach:{short}',
                      f'should_record does not reach {short} on every path: some samples are never examined')
         else:
-            n, c = hit
-            args = [norm(x) for x in c.args]
-            want_args = [pos_p] if short == 'check_zero_crossing' else [f'{vel_p}.magnitude()', mach_p]
-            if args == want_args:
-                rep.ok('C15.R2', tc.where(c), f'{short}({", ".join(args)}) on every path')
-            else:
-                rep.fail('C15.R2', tc.path, c.lineno, sr.qualname, f'args:{short}',
-                         f'{short} is called with ({", ".join(args)}), expected ({", ".join(want_args)})')
-    hist = {f'{me}.previous_time': time_p, f'{me}.previous_position': pos_p, f'{me}.previous_velocity': vel_p,
-            f'{me}.previous_mach': mach_p}
-    bad = []
-    for tgt, src in hist.items():
-        nodes = [n for n in cfg.nodes if isinstance(n.ast, ast.Assign) and norm(n.ast.targets[0]) == tgt
-                 and norm(n.ast.value) == src]
-        if not any(n.id in pdom[cfg.entry.id] for n in nodes):
-            bad.append(tgt.split('.')[-1])
-    if bad:
+            rep.ok('C15.R2', sr.where, f'{short} reached on all {n_leaf} outcomes of should_record')
+    if p_args:
+        rep.fail('C15.R2', tc.path, sr.node.lineno, sr.qualname, 'args:crossing-checks', '; '.join(sorted(p_args)))
+    if p_hist:
         rep.fail('C15.R2', tc.path, sr.node.lineno, sr.qualname, 'history',
-                 f'should_record does not store {bad} from the current sample on every path')
+                 f'should_record does not store {sorted(p_hist)} from the current sample on every path')
     else:
         rep.ok('C15.R2', sr.where, 'previous_time/position/velocity/mach rewritten from the sample on every path')
     # loop ordering in _integrate
